@@ -44,7 +44,8 @@ NEW_CLASSES = ("abrupt_exit_from_finally", "pending_return_survives_throw")
 # ------------------------------------------------------------------------------------------------
 # mini-AST, python side (generation, wire encoding, shrinking); semantics, classes, rendering come from Coq
 # ("skip",) ("seq",a,b) ("print",t) ("pexc",) ("throw",t) ("fail",) ("try",b,c|None,f|None) ("loop",n,b)
-# ("ifiter",k,s) ("break",) ("cont",) ("ret",t) ("call",g)
+# ("ifiter",k,s) ("break",) ("cont",) ("ret",t) ("call",g) ("nfail",)
+# three throw sites: ("throw",t) explicit, ("fail",) raised by the VM (nil()), ("nfail",) returned by a native ("12x".to_num())
 
 
 def wire_stmt(s):
@@ -61,6 +62,8 @@ def wire_stmt(s):
         return [4, s[1]]
     if t == "fail":
         return [5]
+    if t == "nfail":
+        return [13]
     if t == "try":
         r = [6, int(s[2] is not None), int(s[3] is not None)] + wire_stmt(s[1])
         if s[2] is not None:
@@ -125,7 +128,7 @@ class Gen:
 
     def leaf(self, cx):
         rng = self.rng
-        opts = ["print"] * 3 + ["throw"] * 2 + ["fail"]
+        opts = ["print"] * 3 + ["throw"] * 2 + ["fail"] + ["nfail"] * 2
         if cx["fi"] > 0:
             opts += ["call"] * 3
         if cx["catch"]:
@@ -147,6 +150,10 @@ class Gen:
             if safe and cx["nothrow"]:
                 return ("print", self.t())
             return ("fail",)
+        if k == "nfail":
+            if safe and cx["nothrow"]:
+                return ("print", self.t())
+            return ("nfail",)
         if k == "call":
             cands = list(range(cx["fi"]))
             if safe and cx["nothrow"]:
@@ -189,7 +196,7 @@ class Gen:
                 out.append(("loop", rng.randint(1, 3), self.block(c2, depth + 1, budget)))
             else:
                 s = self.leaf(cx)
-                if s[0] in ("break", "cont", "ret", "throw", "fail"):
+                if s[0] in ("break", "cont", "ret", "throw", "fail", "nfail"):
                     s = self.guarded(s, cx)
                 out.append(s)
         return seq(out)
@@ -246,7 +253,7 @@ def has_return(s):
 
 def may_throw(s, thrower):
     t = s[0]
-    if t in ("throw", "fail"):
+    if t in ("throw", "fail", "nfail"):
         return True
     if t == "call":
         return thrower[s[1]] if s[1] < len(thrower) else True
@@ -276,10 +283,13 @@ def has_try(s, hastry):
 def systematic():
     """every throw site x every shape x exit path, two handlers active"""
     progs = []
-    sites = [("throw", 1), ("fail",), ("call", 0), ("call", 1), ("call", 2)]
+    sites = [("throw", 1), ("fail",), ("nfail",), ("call", 0), ("call", 1), ("call", 2), ("call", 3), ("call", 4), ("call", 5)]
     f0 = ("throw", 7)
     f1 = seq([("print", 70), ("call", 0), ("print", 71)])
     f2 = ("try", ("call", 1), None, ("print", 72))
+    f3 = ("nfail",)
+    f4 = ("try", seq([("print", 73), ("call", 3)]), None, ("print", 74))     # native failure in a callee, finally-only
+    f5 = ("try", ("fail",), None, seq([("print", 75)]))
     for site in sites:
         for shape in ("c", "f", "cf"):
             for outer in ("c", "f", "cf", None):
@@ -290,8 +300,8 @@ def systematic():
                 if outer:
                     body = seq([("try", body, seq([("pexc",), ("print", 6)]) if "c" in outer else None,
                                  ("print", 8) if "f" in outer else None), ("print", 9)])
-                progs.append([f0, f1, f2, body])
-    exits = [("break",), ("cont",), ("ret", 5), ("throw", 6), ("skip",)]
+                progs.append([f0, f1, f2, f3, f4, f5, body])
+    exits = [("break",), ("cont",), ("ret", 5), ("throw", 6), ("nfail",), ("fail",), ("skip",)]
     for ex in exits:
         for where in ("b", "c"):
             for shape in ("c", "f", "cf"):
@@ -310,7 +320,7 @@ def systematic():
 
 EXPANSION = {
     "Print": ["GetGlobal", "Constant", "Call", "Pop"], "PrintLocal": ["GetGlobal", "GetLocal", "Call", "Pop"],
-    "Fail": ["Nil", "Call"], "Const": ["Constant"], "Nil": ["Nil"], "Pop": ["Pop"], "Throw": ["Throw"],
+    "Fail": ["Nil", "Call"], "NativeFail": ["Constant", "Invoke"], "Const": ["Constant"], "Nil": ["Nil"], "Pop": ["Pop"], "Throw": ["Throw"],
     "PushNative": ["GetGlobal"], "Call": ["GetGlobal", "Call"], "PrintTop": ["Call"],
     "Less": ["GetLocal", "Constant", "Less"], "Eq": ["GetLocal", "Constant", "Equal"],
     "Incr": ["GetLocal", "Constant", "Add", "SetLocal", "Pop"], "Jump": ["Jump"], "JumpIfFalse": ["JumpIfFalse"],
@@ -418,24 +428,44 @@ def nontrivial_kinds(itrace):
             kinds.add("throw2")
         if r[0] == "EndFinally" and r[5]:
             kinds.add("finexc")
+        if r[0] == "Invoke" and k + 1 < len(itrace) and r[7] and len(itrace[k + 1][7]) < len(r[7]) and itrace[k + 1][5]:
+            kinds.add("native_finally_only")   # a native failure delivered to a handler without catch clause
         if r[0] == "EndFinally" and r[6]:
             kinds.add("finret")
-        if r[0] == "Call" and k + 1 < len(itrace) and len(r[7]) >= 2 and len(itrace[k + 1][7]) < len(r[7]) \
+        if r[0] in ("Call", "Invoke") and k + 1 < len(itrace) and len(r[7]) >= 2 and len(itrace[k + 1][7]) < len(r[7]) \
                 and itrace[k + 1][0] != "PopExcHandler":
             kinds.add("fail2")
     return kinds
+
+
+def gen_cfg_term(ctx=None):
+    """the configuration the translator read from the CURRENT sources (coq/gen/manifest.json), as a Gallina term: M
+    follows the sources; the theorems are for the configuration props/C08.v compares it with"""
+    try:
+        with open(os.path.join(yvlib.COQ, "gen", "manifest.json")) as fh:
+            m = json.load(fh)["c08_tryarms"]
+        b = lambda x: "true" if x else "false"  # noqa
+        return "(cfg_flags %s %s %s %d %s %s %s)" % (
+            b(m["gen_catch_emits_pop"]), b(m["gen_break_pops_handlers"] and m["gen_continue_pops_handlers"]),
+            b(m["gen_return_in_try_uses_jump_finally"]), int(m["gen_unwind_he_mode"]), b(m["gen_throw_sets_he"]),
+            b(m["gen_vmfail_sets_he"]), b(m["gen_nativefail_sets_he"]))
+    except Exception as e:  # the translator did not recognise the sources: M = the configuration of the theorems
+        if ctx is not None and not any("manifest" in n for n in ctx.notes):
+            ctx.notes.append("no c08_tryarms in gen/manifest.json (%s): M runs with cfg_today" % e)
+        return "cfg_today"
 
 
 def evaluate(ctx, progs, tag, want_trace=True, ndebug=0):
     """-> list of dicts with wf, cls, spec, m, src, impl, rec, mtrace; the release binary runs every program,
     the debug binary (overflow checks, debug assertions) the first `ndebug` as well"""
     ws = [wire(p) for p in progs]
+    kt = gen_cfg_term(ctx)
     terms = []
     for w in ws:
-        terms.append('c08_case "%s"' % w)
+        terms.append('c08_case_k %s "%s"' % (kt, w))
         terms.append('c08_render "%s"' % w)
         if want_trace:
-            terms.append('c08_trace 4000 "%s"' % w)
+            terms.append('c08_trace_k %s 4000 "%s"' % (kt, w))
     per = 3 if want_trace else 2
     shard = per * max(8, (len(ws) + 31) // 32)
     vals = yvlib.coq_eval(["YV:TryRun"], terms, shard_size=shard, tag="C08" + tag)
@@ -633,6 +663,14 @@ PROBES = [
     ('fn f() { try { return 1; } finally { print("fin"); } } print(f()); try { throw 2; } catch e { print(e); }', "fin,1,2/D"),
     ('fn f(n) { while n > 0 { try { n = n - 1; if n == 1 { throw n; } } catch e { print("c"); print(e); } } return n; } print(f(3));',
      "c,1,0/D"),
+] + [
+    # failures RETURNED by natives (Err arm of call_native) and raised by the VM, innermost handler finally-only: the
+    # finally block runs and the exception goes on to the caller's catch clause
+    ('fn f() { try { %s; } finally { print("fin"); } print("fell"); } try { f(); print("dropped"); } catch e { print(type(e)); }' % x,
+     "fin,<class %s>/D" % c)
+    for x, c in [('"12x".to_num()', "ValueError"), ('var m = {}; m.insert([1], 2)', "ValueError"), ('print(1, 2)', "TypeError"),
+                 ('"a".find("", 0)', "ValueError"), ('var fb = Fiber.new(|| 1); fb.call(); fb.call()', "RuntimeError"),
+                 ('[1].pop(1, 2)', "TypeError"), ('nil()', "TypeError"), ('1 + nil', "TypeError"), ('[1][3]', "IndexError")]
 ]
 
 
@@ -651,7 +689,7 @@ WITNESSES = [("wit_early_exit_break", "early_exit_skips_finally"), ("wit_early_e
              ("wit_finally_local", "finally_local"), ("wit_he_global_nested", "handling_exception_global"),
              ("wit_he_global_callee", "handling_exception_global"), ("wit_abrupt_finally", "abrupt_exit_from_finally"),
              ("wit_pending_return", "pending_return_survives_throw"),
-             ("wit_catch_pops_outer", None), ("wit_break_in_try", None)]
+             ("wit_catch_pops_outer", None), ("wit_break_in_try", None), ("wit_native_finally", None)]
 
 
 def replay_witnesses(ctx, stats):
@@ -785,6 +823,8 @@ def unwire(w):
             return ("ret", toks.pop(0))
         if t == 12:
             return ("call", toks.pop(0))
+        if t == 13:
+            return ("nfail",)
         raise ValueError(t)
     return [st([int(x) for x in g.split()]) for g in w.split(";")]
 
